@@ -57,7 +57,7 @@ CHECKS = {
     },
     "C17": {
         "engine": "vp-seglog", "level": "exploration",
-        "rule": "real Writer/Reader/parse_record on real files; a record R is written between two neighbours for header sizes H in {0,1,8,16,32} x data sizes {0,1,2,7,8,...,127,128,129, 2039..2057, 4087..4105, 65527..65545, 200000 (thorough)} plus sizes making H+N a power of two x contents {random,compressible,zero} x compression {off,on}; round trip by random read, sequential read, iteration (from every boundary) and parse_record; then R is damaged in place: EVERY single-bit flip (records <= 1100 B quick / 16 KiB thorough; header + sampled payload bits otherwise), bursts of 2..32 bits with both end bits set at every bit offset (small) or sampled, truncation at every byte (small) or sampled by zeroing the tail and by shortening the file; every read path must refuse R without panicking while the intact neighbour before it still reads; Writer::open on the damaged file must resume at R and a following append must leave the intact record readable. non-trivial = distinct (H, size, content, compression) record cases",
+        "rule": "real Writer/Reader/parse_record on real files; a record R is written between two neighbours for header sizes H in {0,1,8,16,32} x data sizes {0,1,2,7,8,...,127,128,129, 2039..2057, 4087..4105, 65527..65545, 200000 (thorough)} plus sizes making H+N a power of two x contents {random,compressible,zero} x compression {off,on}; round trip by random read, sequential read, iteration (from every boundary) and parse_record; then R is damaged in place: EVERY single-bit flip (records <= 1100 B quick / 16 KiB thorough; header + sampled payload bits otherwise), bursts of 2..32 bits with both end bits set at every bit offset (small) or sampled, truncation at every byte (small) or sampled by zeroing the tail and by shortening the file; every read path must refuse R without panicking while the intact neighbour before it still reads; Writer::open on the damaged file must resume at R and a following append must leave the intact record readable. non-trivial = distinct (H, size, content, compression) record cases; growing log: 4-13 records (the case's size, empty, small, sometimes > 64 KiB, sometimes a run that walks a record boundary across the 64 KiB read-ahead window end) are appended and synced one by one while one long-lived reader sharing the flushed offset reads each record sequentially as the tail of the flushed log and a second one iterates the whole flushed log after every sync",
         "assumptions": A_COMMON + ["an accepted damaged record would be reported even if it were a genuine 2^-32 CRC collision (bursts spanning the len|crc|header boundary are not contiguous in CRC order)"],
         "quick": {"shards": 16, "budget_s": 60, "min_evals": 500000, "min_counters": {"records_with_every_bit_flipped": 200, "truncations": 10000}},
         "thorough": {"shards": 16, "budget_s": 900, "min_evals": 20000000, "extras": ["asan_seglog"]},
@@ -78,7 +78,7 @@ CHECKS = {
     },
     "C02": {
         "engine": "vp-store", "level": "exploration",
-        "rule": "seeded histories of 40-120 well-formed appends on a real Database (random configuration as for C01): Any/Exists/Empty/Exact expectations right and wrong by one or two, repeated streams inside one transaction with expectations relative to earlier events of the same transaction, 2 streams x 2 keys per partition over 1-3 partitions per bucket, expected partition sequence Any/Exists/Empty/Exact right and wrong, same-bucket partition-key conflicts, reopen between steps. Oracle: reference model: accept/reject must agree, assigned sequences/versions must agree, latest-version/sequence queries must agree after every accept, and a rejected append must leave every observable (latest queries, partition tail, stream tails) unchanged. non-trivial = distinct histories exercising >= 3 expectation kinds both satisfied and violated and crossing >= 1 rollover or reopen",
+        "rule": "seeded histories of 40-120 well-formed appends on a real Database (random configuration as for C01): Any/Exists/Empty/Exact expectations right and wrong by one or two, repeated streams inside one transaction with expectations relative to earlier events of the same transaction, 2 streams x 2 keys per partition over 1-3 partitions per bucket, expected partition sequence Any/Exists/Empty/Exact right and wrong, same-bucket partition-key conflicts, reopen between steps. Oracle: reference model: accept/reject must agree, assigned sequences/versions must agree, latest-version/sequence queries must agree after every accept, and a rejected append must leave every observable (latest queries, partition tail, stream tails) unchanged. non-trivial = distinct histories exercising >= 3 expectation kinds both satisfied and violated and crossing >= 1 rollover or reopen; 1 step in 7 is a pipelined pair issued without waiting in between: a valid append A to an existing stream and, behind it, an append B to the same stream under another partition key of the same partition expecting exactly the version A produces - A must be accepted and B refused whichever the writer handles first (B is validated while A's event may still be unsynced)",
         "assumptions": A_COMMON + ["only accept/reject and assigned numbers are compared, not error text", "transactions fit a segment and carry valid timestamps (everything else belongs to C01/C19)"],
         "quick": {"shards": 16, "budget_s": 40, "min_evals": 200, "min_counters": {"acks": 5000, "appends_rejected_as_expected": 3000}},
         "thorough": {"shards": 48, "parallel": 16, "budget_s": 300, "min_evals": 5000},
@@ -162,7 +162,7 @@ CHECKS = {
     },
     "C09": {
         "engine": "vp-cluster1", "level": "exploration",
-        "rule": "per shard one real single-node ClusterActor, mode A (rf=1, even shards): writes through ExecuteTransaction (confirmed at once); mode B (rf=3, odd shards): the harness plays coordinator through ReplicateWrite (stored at count 0) + ConfirmTransaction (quorum count) issued in batches, in order or shuffled, with delays. Per run on 1-3 fresh partitions: 3-14 history transactions, then 1-3 subscriptions (Partition, Partitions with explicit starts and fallback, Stream, Streams; start 0 / middle / end / latest; window 1/3/50/1000), 10-50 live writes (thorough: every 10th run 1200-1800 writes to overflow the 1000-slot broadcast channel), subscriber acknowledging with random lag and stalls. Online monitor on the mpsc receiver handed to Subscribe: cursor consecutive, event is a written event with equal content, matches the subscription, not delivered twice, position = previous+1 (first = start), partition sequence below the prefix for which confirmations had been issued, outstanding <= window; at quiescence every confirmed matching event from the start must have arrived (nothing delivered for 3 s after everything was acknowledged = lost). Directed (mode B, hook H5): a stream history of 110-170 commits with the watermark inside the first 50-commit history batch; the subscription is held at the top of its second history batch while everything is confirmed. non-trivial = distinct (run, subscription, window)",
+        "rule": "per shard one real single-node ClusterActor, mode A (rf=1, even shards): writes through ExecuteTransaction (confirmed at once); mode B (rf=3, odd shards): the harness plays coordinator through ReplicateWrite (stored at count 0) + ConfirmTransaction (quorum count) issued in batches, in order or shuffled, with delays. Per run on 1-3 fresh partitions: 3-14 history transactions, then 1-3 subscriptions (Partition, Partitions with explicit starts and fallback, Stream, Streams; start 0 / middle / end / latest; window 1/3/50/1000), 10-50 live writes (thorough: every 10th run 1200-1800 writes to overflow the 1000-slot broadcast channel), subscriber acknowledging with random lag and stalls. Online monitor on the mpsc receiver handed to Subscribe: cursor consecutive, event is a written event with equal content, matches the subscription, not delivered twice, position = previous+1 (first = start), partition sequence below the prefix for which confirmations had been issued, outstanding <= window; at quiescence every confirmed matching event from the start must have arrived (nothing delivered for 3 s after everything was acknowledged = lost). Directed (mode B, hook H5): a stream history of 110-170 commits with the watermark inside the first 50-commit history batch; the subscription is held at the top of its second history batch while everything is confirmed. non-trivial = distinct (run, subscription, window); directed (rf=3 shards) multi-partition form of the history window: one Partitions subscription over P (110-170 commits, watermark inside its first 50-commit batch) and Q (60-120 confirmed commits) is held by hook sub.history.batch at the top of its second batch while the rest of P is confirmed",
         "assumptions": A_COMMON + ["'from latest' subscriptions are checked for order, gaps, duplicates, confirmation and window only (their lower bound is not specified tightly enough to assert)", "liveness is restated as bounded progress: confirmed, everything acknowledged, 3 s without delivery"],
         "quick": {"shards": 16, "budget_s": 45, "min_evals": 500, "min_counters": {"deliveries_checked": 50000, "long_history_cases": 16, "subscriptions.streams": 300, "subscriptions.partitions": 300}},
         "thorough": {"shards": 32, "parallel": 16, "budget_s": 300, "min_evals": 5000},
